@@ -62,7 +62,9 @@ class Recorder:
         return {"bl": int(c._buf_len), "ff": bool(c._first_frame)}
 
     def _arr(self, u, start, n):
-        x = signal(u, start, n)
+        # the samples arrive in varying memory layouts (strided views, byte-swapped, ...): same values, same frames
+        import common
+        x = common.relayout(signal(u, start, n), common.LAYOUTS[(u + start + n) % len(common.LAYOUTS)])
         if self.readonly:
             x.flags.writeable = False
         return x
